@@ -851,6 +851,7 @@ namespace link_layer {
         std::uint8_t                    defered_ll_control_pdu_storage_[ layout_t::data_channel_pdu_memory_size( 12u ) ];
         connection_data_t               connection_data_;
         bool                            termination_send_;
+        bool                            connection_established_reported_;
         std::uint16_t                   used_features_;
         bool                            pending_event_;
         volatile bool                   restart_user_timer_requested_;
@@ -974,6 +975,7 @@ namespace link_layer {
                 version_indication_received_            = false;
                 version_indication_send_                = false;
                 disconnecting_reason_                   = connection_timeout;
+                connection_established_reported_        = false;
                 procedure_timeout_                      = delta_time();
                 procedure_timeout_request_              = LL_UNKNOWN_RSP;
 
@@ -1055,9 +1057,11 @@ namespace link_layer {
             restart_user_timer_requested_ = false;
         }
 
-        if ( state_ == state::connecting )
+        // disconnect() might have been called before the first connection event
+        if ( state_ == state::connecting || ( state_ == state::disconnecting && !connection_established_reported_ ) )
         {
             this->connection_established( details(), connection_data_, static_cast< radio_t& >( *this ) );
+            connection_established_reported_ = true;
         }
         else if ( state_ == state::connection_changed )
         {
@@ -1470,7 +1474,7 @@ namespace link_layer {
         this->reset_encryption();
         this->reset_phy( *this );
 
-        if ( state_ != state::connecting )
+        if ( state_ != state::connecting && connection_established_reported_ )
         {
             this->synchronized_connection_event_callback_disconnect();
             this->connection_closed( disconnecting_reason_, connection_data_, static_cast< radio_t& >( *this ) );
